@@ -11,6 +11,7 @@
    Part 2: futures.  MPIFuture<R> = { req_, data_ (impl::Buffer<R>) }; events are the member
    calls valid/ready/wait/get and the completion of the operation in the network. *)
 From Coq Require Import List Bool Arith NArith.
+From DuneV Require Import Params_gen.
 Import ListNotations.
 
 (* ------------------------------------------------------------------------------------------ *)
@@ -18,6 +19,7 @@ Import ListNotations.
 
 (* operations of a script *)
 Inductive c19_gop :=
+| C19_FinDefault (* guard.finalize()  -- default argument, re-read from the source: c19_param_finalize_default *)
 | C19_FinOk      (* guard.finalize(true)  *)
 | C19_FinFail    (* guard.finalize(false) *)
 | C19_Throw      (* the guarded code throws (anything but MPIGuardError) *)
@@ -31,8 +33,13 @@ Inductive c19_exit :=
 
 (* finalize(bool success):  int result = success ? 0 : 1;  bool was_active = active_;  active_ = false;
                             result = comm_->sum(result);    if (result>0 && was_active) DUNE_THROW(MPIGuardError,...) *)
-Definition c19_finalize_contrib (success : bool) : nat := if success then 0 else 1.
-Definition c19_finalize_throws (was_active : bool) (result : nat) : bool := (0 <? result) && was_active.
+(* the literals 0, 1 and the threshold 0 are re-read from mpiguard.hh into Params_gen.v on every run *)
+Definition c19_finalize_contrib (success : bool) : nat := if success then c19_param_ok_contrib else c19_param_fail_contrib.
+Definition c19_finalize_throws (was_active : bool) (result : nat) : bool := (c19_param_throw_threshold <? result) && was_active.
+
+(* constructors: MPIGuard(..., bool active = <default>): None = argument omitted *)
+Definition c19_ctor_active (arg : option bool) : bool :=
+  match arg with Some a => a | None => c19_param_ctor_default_active end.
 
 (* what a process does when the collective it waits in returns *)
 Inductive c19_kont :=
@@ -50,12 +57,14 @@ Inductive c19_stop :=
    reactivate(): if (active_ == true) finalize(); active_ = true; *)
 Fixpoint c19_run (ops : list c19_gop) (pc : nat) (active : bool) : c19_stop :=
   match ops with
-  | [] => if active then C19_AtColl 1 (C19_KDtor C19_Normal) else C19_Done C19_Normal
-  | C19_Throw :: _ => if active then C19_AtColl 1 (C19_KDtor (C19_UserExc pc)) else C19_Done (C19_UserExc pc)
+  | [] => if active then C19_AtColl (c19_finalize_contrib c19_param_dtor_success) (C19_KDtor C19_Normal) else C19_Done C19_Normal
+  | C19_Throw :: _ => if active then C19_AtColl (c19_finalize_contrib c19_param_dtor_success) (C19_KDtor (C19_UserExc pc))
+                      else C19_Done (C19_UserExc pc)
+  | C19_FinDefault :: rest => C19_AtColl (c19_finalize_contrib c19_param_finalize_default) (C19_KFin active false rest pc)
   | C19_FinOk :: rest => C19_AtColl (c19_finalize_contrib true) (C19_KFin active false rest pc)
   | C19_FinFail :: rest => C19_AtColl (c19_finalize_contrib false) (C19_KFin active false rest pc)
   | C19_React :: rest =>
-      if active then C19_AtColl (c19_finalize_contrib true) (C19_KFin true true rest pc)
+      if active then C19_AtColl (c19_finalize_contrib c19_param_finalize_default) (C19_KFin true true rest pc)   (* finalize(); *)
       else c19_run rest (S pc) true
   end.
 
@@ -101,6 +110,9 @@ Definition c19_maxlen (scripts : list (list c19_gop)) : nat := fold_right (fun s
 Definition c19_guard_scope (active0 : bool) (scripts : list (list c19_gop)) : c19_gres :=
   c19_exec (c19_maxlen scripts + 2) (map (fun ops => (c19_run ops 0 active0, 0)) scripts).
 
+Definition c19_guard_scope_ctor (arg : option bool) (scripts : list (list c19_gop)) : c19_gres :=
+  c19_guard_scope (c19_ctor_active arg) scripts.
+
 (* the documented use: a sequence of guarded sections
       [reactivate();]  section_0  reactivate();  section_1  reactivate(); ... section_{S-1}
    where section = work; finalize(work succeeded) *)
@@ -121,8 +133,47 @@ Definition c19_script (active0 : bool) (os : list c19_outcome) : list c19_gop :=
 Definition c19_sections_run (active0 : bool) (outs : list (list c19_outcome)) : c19_gres :=
   c19_guard_scope active0 (map (c19_script active0) outs).
 
+(* communicators obtained by MPI_Comm_split(world, colour, key = world rank): one group per colour, members in rank order *)
+Definition c19_group_of (colors : list nat) (c : nat) : list nat :=
+  filter (fun r => nth r colors 0 =? c) (seq 0 (length colors)).
+Definition c19_groups (colors : list nat) : list (list nat) := map (c19_group_of colors) (nodup Nat.eq_dec colors).
+
+(* several guarded scopes one after the other (a new guard each; an exception leaving a scope is caught outside it) *)
+Definition c19_scopes_run (scopes : list (bool * list (list c19_outcome))) : list c19_gres :=
+  map (fun sc => c19_sections_run (fst sc) (snd sc)) scopes.
+
+(* nested guards on different communicators:
+     { MPIGuard outer(world);
+       { MPIGuard inner(group communicator);  section_0 ... section_{S-1} }      // groups: a partition of world
+       outer.finalize(); }
+   The groups run their inner scopes independently (disjoint communicators); a process whose inner scope ended by an
+   exception unwinds through the outer scope (the outer destructor reports), the others reach outer.finalize(). *)
+Definition c19_is_finished (g : c19_gres) : bool := match g with C19_Finished _ => true | _ => false end.
+Definition c19_obs_of (g : c19_gres) : list (option c19_exit * nat) :=
+  match g with C19_Finished l | C19_Deadlock l => l | C19_OutOfFuel => [] end.
+Definition c19_outer_outcome (inner : option c19_exit * nat) : c19_outcome :=
+  match fst inner with Some C19_Normal => C19_Ok | _ => C19_Throws end.
+Definition c19_nested_run (groups : list (list (list c19_outcome))) : list c19_gres * c19_gres :=
+  let inner := map (c19_sections_run true) groups in
+  (inner,
+   if forallb c19_is_finished inner
+   then c19_sections_run true (map (fun o => [c19_outer_outcome o]) (concat (map c19_obs_of inner)))
+   else C19_Deadlock []).
+
 (* ------------------------------------------------------------------------------------------ *)
 (** * Part 2: futures *)
+
+(* the non-blocking operations; which calls are refused at the start with ParallelError:
+   Communication<No_Comm>::isend/irecv ("not supported in sequential programs"), Communication<MPI_Comm>::irecv with an
+   empty buffer ("Size if irecv data object is zero") *)
+Inductive c19_nbop := C19_Isend | C19_Irecv | C19_Ibcast | C19_Igather | C19_Iscatter | C19_Iallgather | C19_Iallreduce | C19_Ibarrier.
+Inductive c19_fam := C19_FamMPI | C19_FamSeq.
+Definition c19_start_rejected (fam : c19_fam) (op : c19_nbop) (buflen : nat) : bool :=
+  match fam, op with
+  | C19_FamSeq, (C19_Isend | C19_Irecv) => true
+  | C19_FamMPI, C19_Irecv => buflen =? 0
+  | _, _ => false
+  end.
 
 Inductive c19_fop := C19_Valid | C19_Ready | C19_Wait | C19_Get
                    | C19_Move        (* F g(std::move(f)): afterwards the script talks to g; observation = f.valid() *)
@@ -225,6 +276,34 @@ Section Future.
   (* MPIFuture<T>(true): valid, value-initialised buffer, no request *)
   Definition c19_fut_prevalid (v : D) : c19_fut := C19_mkfut (Some v) C19_ReqNull.
 
+  (* MPIFuture(bool valid = <default>) with value-initialised buffer v0: None = argument omitted *)
+  Definition c19_fut_ctor (arg : option bool) (v0 : D) : c19_fut :=
+    if match arg with Some a => a | None => c19_param_mpifuture_default_valid end then c19_fut_prevalid v0 else c19_fut_default.
+
+  (* Dune::Future<T>: type erasure, std::unique_ptr<FutureBase> _future.  None = no future object (default-constructed
+     or moved-from wrapper): valid() = false, wait/get/ready throw InvalidFutureException (since e5bbbdf).
+     Moving the wrapper moves the unique_ptr: the source is always empty, the script goes on with the target.
+     get_send_data is not part of the interface (no trace item). *)
+  Definition c19_estep (cfg : c19_cfg) (k : c19_bkind) (v : D) (o : c19_fop) (e : option c19_fut) : list c19_titem * option c19_fut :=
+    match o with
+    | C19_Move | C19_MoveAssign => ([C19_TOp o (C19_RBool false)], e)
+    | C19_SendData => ([], e)
+    | _ => match e with
+           | None => ([C19_TOp o (match o with C19_Valid => C19_RBool false | _ => C19_RInvalid end)], None)
+           | Some f => let (t, f') := c19_fstep cfg k v o f in (t, Some f')
+           end
+    end.
+  Fixpoint c19_etrace (cfg : c19_cfg) (k : c19_bkind) (v : D) (h : list c19_fev) (e : option c19_fut) : list c19_titem :=
+    match h with
+    | [] => []
+    | C19_EvComplete :: h' =>
+        match e with
+        | Some f => (if c19_pending f then [C19_TEnable] else []) ++ c19_etrace cfg k v h' (Some (c19_complete v f))
+        | None => c19_etrace cfg k v h' None
+        end
+    | C19_EvOp o :: h' => let (t, e') := c19_estep cfg k v o e in t ++ c19_etrace cfg k v h' e'
+    end.
+
   (* PseudoFuture<T>: { bool valid_; T data_ } *)
   Record c19_pfut := C19_mkpfut { c19_pvalid : bool; c19_pdata : D }.
   Definition c19_pstep (o : c19_fop) (f : c19_pfut) : c19_titem * c19_pfut :=
@@ -251,6 +330,7 @@ Arguments C19_mkfut {D}. Arguments c19_buf {D}. Arguments c19_rq {D}. Arguments 
 Arguments c19_complete {D}. Arguments c19_pending {D}. Arguments c19_mpi_wait {D}. Arguments c19_mpi_test {D}.
 Arguments c19_buf_after_get {D}. Arguments c19_buf_after_move {D}. Arguments c19_fstep {D}. Arguments c19_ftrace {D}.
 Arguments c19_fut_started {D}. Arguments c19_fut_default {D}. Arguments c19_fut_prevalid {D}.
+Arguments c19_fut_ctor {D}. Arguments c19_estep {D}. Arguments c19_etrace {D}.
 Arguments C19_mkpfut {D}. Arguments c19_pvalid {D}. Arguments c19_pdata {D}. Arguments c19_pstep {D}. Arguments c19_ptrace {D}.
 
 (* histories: the operations with the completion event inserted before operation number c (c >= length: never observed) *)
